@@ -77,6 +77,10 @@ pub const TES: &[&[&str]] = &[
     // a transfer coding without chunked: the statement lets Content-Length (or the close) delimit such a body
     &["identity"],
     &["gzip"],
+    // coding names that merely end in (or contain) the letters of chunked
+    &["x-chunked"],
+    &["identity, notchunked"],
+    &["chunkedx"],
 ];
 pub const N_EXTRA: u8 = 3;
 pub const N_SEG: u8 = 3;
@@ -191,7 +195,7 @@ fn gzip(data: &[u8]) -> Vec<u8> {
 impl Property for C03 {
     type Case = Case;
     const ID: &'static str = "C03";
-    const RULE: &'static str = "cases drawn from (thorough: all of) the product method{8} x status{16} x Content-Length configuration{38} x Transfer-Encoding{16} x \
+    const RULE: &'static str = "cases drawn from (thorough: all of) the product method{8} x status{16} x Content-Length configuration{38} x Transfer-Encoding{19} x \
 Content-Encoding{2} x bytes after the frame{3} x segmentation{3} x payload length{2}; the reference model (RFC 9112 6.3) decides the governing framing and the builder lays the body \
 out for it; outcome (Ok/Err and bytes) compared exactly. non-trivial = two framing signals in conflict, or a bodiless method/status carrying framing or coding headers, or an invalid/disagreeing \
 Content-Length; distinct by case index";
@@ -258,7 +262,15 @@ Content-Length; distinct by case index";
         let (cl_class, cl_vals) = classify_cl(cl_cfg, plen);
 
         let bodiless = method == "HEAD" || status / 100 == 1 || status == 204 || status == 304;
-        let chunked = te.iter().any(|t| t.to_ascii_lowercase().contains("chunked"));
+        // chunked governs when it is the final transfer coding: the last non-empty member of the combined list
+        let chunked = te
+            .iter()
+            .flat_map(|t| t.split(','))
+            .map(|m| m.trim_matches(|c| c == ' ' || c == '\t'))
+            .filter(|m| !m.is_empty())
+            .last()
+            .map(|m| m.eq_ignore_ascii_case("chunked"))
+            .unwrap_or(false);
         let te_gzip = te.iter().any(|t| t.contains("gzip"));
         let ce_gzip = case.ce == 1;
         let coded = te_gzip || ce_gzip;
